@@ -323,6 +323,18 @@ def r7_notify(ctx):
     sends = [s for s, t in nw.calls() if any(c.endswith("oneshot::Sender::send") for c in nw.callees_of_call(t, passed=False))]
     ok = bool(tk) and bool(sends) and all(nw.path_exists(s, lambda x, s=s: x == s) is not None for s in sends)
     ctx.ob("C19.R7", "notify_waiters-signals-all", ok, "notify_waiters takes the whole waiter list and signals every element (loop)", loc=nw.loc())
+    # the waiters were taken out of the queue: until its flag says NOTIFIED a waiter's Drop / poll still believes it is queued and calls
+    # remove_waiter (which panics when the id is gone).  Waking a waiter is a scheduling point, so every flag must be set before the first wake.
+    import re
+    from rules.c18 import _calls_on_field
+    stores = [s for s, t in _calls_on_field(prog, nw, N + "Waiter.flag", re.compile(r"atomic::Atomic.*::(store|swap)$"))]
+    may_switch = kinds.may_reach_set(prog, {kinds.SWITCH})
+    yields = [s for s, t in nw.calls() if nw.callees_of_call(t) & may_switch]
+    bad = next((y for y in yields if nw.path_exists(y, lambda x: x in set(stores)) is not None), None)
+    ctx.ob("C19.R7", "notify_waiters-marks-all-before-first-wake", bool(stores) and bool(yields) and bad is None,
+           "in notify_waiters no flag is set after a call that may reach a choice point: all removed waiters are marked NOTIFIED before any of them is woken" if bad is None else
+           "notify_waiters sets a waiter's flag after a call that may yield (%s): a removed waiter whose flag is not yet NOTIFIED can run in that window, "
+           "and dropping or polling its Notified panics in remove_waiter" % nw.loc(bad), loc=nw.loc(bad) if bad else nw.loc())
     pi = ctx.body(N + "Notified::poll_inner", "C19.R7")
     rp = [s for s, t in pi.calls() if "core::mem::replace" in pi.callees_of_call(t, passed=False)]
     ok = bool(rp) and kinds.operand_const(pi, pi.term(rp[0].bb)["args"][1]) == 0
